@@ -7,29 +7,9 @@
 (*            composition law of C07)                                      *)
 (*   "diff" : a pair (A, B) given to CreateMergePatch (C03)                *)
 (***************************************************************************)
-EXTENDS Merge7396, Json, TLC
+EXTENDS Merge7396, Universe, Json, TLC
 
 CONSTANTS Mode, DocLevel, PatchLevel, MaxOps, EmitOn, Part, Parts
-
-ca == <<97>>  cb == <<98>>  cc == <<99>>
-N1   == Num("1", "1e0")
-N10  == Num("1.0", "1e0")
-NBig == Num("12345678901234567890123", "12345678901234567890123e0")
-NBig2 == Num("12345678901234567890124", "12345678901234567890124e0")
-SX   == Str(<<120>>)
-
-Leaf  == { Null, N1, N10, SX }
-Small == Leaf \cup { Obj(<<>>), Arr(<<>>), Obj(<<Mem(ca, Null)>>), Obj(<<Mem(ca, N1)>>), Obj(<<Mem(cb, SX)>>),
-                     Arr(<<Null>>), Arr(<<N1, Obj(<<Mem(ca, Null)>>)>>), NBig }
-ObjsOver(S) == { Obj(<<Mem(ca, x)>>) : x \in S } \cup { Obj(<<Mem(cb, x)>>) : x \in S }
-               \cup { Obj(<<Mem(ca, x), Mem(cb, y)>>) : x \in S, y \in S }
-               \cup { Obj(<<Mem(cb, x), Mem(ca, y)>>) : x \in S, y \in S }
-Mid == Small \cup ObjsOver(Small)
-\* three levels of nesting through a member that changes type, wide objects
-Top == Mid \cup { Obj(<<Mem(ca, x)>>) : x \in Mid } \cup { Obj(<<Mem(cc, NBig2), Mem(ca, x)>>) : x \in Mid }
-       \cup { Arr(<<x>>) : x \in ObjsOver(Leaf) }
-
-U(level) == CASE level = 1 -> Small [] level = 2 -> Mid [] OTHER -> Top
 
 VARIABLES doc0, cur, hist, phase
 mvars == <<doc0, cur, hist, phase>>
